@@ -11,10 +11,10 @@ def check(ctx, rep, rule='R13.2'):
     # role: the local function called from prayer_times_dt with (date, gmt) whose result feeds the ephemeris constructor
     from ..facts import callee_name
     cands = []
-    for _, t in ctx.lib.bodies[dt].calls():
-        n = callee_name(t)
+    for n in ctx.reach(dt):
         b = ctx.lib.bodies.get(n)
-        if b is not None and b.arg_count == 2 and b.locals[1]['s'] == 'chrono::NaiveDate' and b.locals[0].get('adt') in ctx.lib.adts:
+        if b is not None and b.kind in ('Fn', 'AssocFn') and b.arg_count == 2 and b.locals[1]['s'] == 'chrono::NaiveDate' and \
+                b.locals[0].get('adt') in ctx.lib.adts and (b.locals[2].get('adt') or '').endswith('Gmt'):
             cands.append(n)
     if len(set(cands)) != 1:
         rep.ob(rule, 'julian-day-constructor', None, f'constructor not identified: {cands}')
